@@ -12,61 +12,20 @@ SANI = os.path.join(F.VERIF, "spec", "sanitisers.json")
 
 
 # ------------------------------------------------------------------ sanitiser verification
-def verify_sanitiser(facts, entry):
-    """Structural check of an escaping helper: a `match` over a char (of s.chars()) whose arms map each character of
-    must_escape to its replacement (pushed/returned text) and whose catch-all passes the character through."""
-    key = entry["fn"]
-    fn = facts.fns.get(key)
-    if fn is None:
-        return False, "function %s not found" % key
-    if entry.get("compose"):
-        # body = inner(param).replace('c', "cc")...
-        inner = entry["compose"]
-        t = rx.tail_expr(fn.body)
-        if t is None or len(fn.body["stmts"]) != 1:
-            return False, "%s is not a single expression" % key
-        base, chain = rx.method_chain(t)
-        pname = fn.params[0][0] if fn.params else None
-        ok_base = base["k"] == "call" and base["f"]["k"] == "path" and base["f"]["segs"][-1] == inner.split("::")[-1] and len(base["args"]) == 1 and rx.is_var(base["args"][0], pname)
-        reps = {}
-        for m, a, _ in chain:
-            if m != "replace" or len(a) != 2 or a[0].get("t") not in ("char", "str") or a[1].get("t") != "str":
-                return False, "%s: unexpected step .%s(..)" % (key, m)
-            reps[a[0]["v"]] = a[1]["v"]
-        # the replacement must not re-introduce a character escaped by the inner sanitiser
-        clash = [k for k, v in reps.items() if any(ch in v for ch in ('"', "\\"))]
-        if ok_base and reps == entry["replace"] and not clash:
-            return True, "%s = %s ∘ replace%s" % (key, inner, reps)
-        return False, "%s is not %s(param)%s" % (key, inner, "".join(".replace(%r,%r)" % kv for kv in entry["replace"].items()))
-    ms = find_all(fn.body, lambda n: n.get("k") == "match")
-    best = None
-    for m in ms:
-        table = {}
-        default_ok = False
-        for arm in m["arms"]:
-            for p in rx.pat_cases(arm["pat"]):
-                if p["k"] == "lit" and p["t"] == "char":
-                    strs = [n["v"] for n in find_all(arm["body"], lambda n: n.get("k") == "lit" and n.get("t") == "str")]
-                    table[p["v"]] = strs[0] if len(strs) == 1 else None
-                elif rx.is_catchall(p):
-                    name = p.get("name")
-                    pushes = find_all(arm["body"], lambda n: n.get("k") == "mcall" and n["m"] == "push" and len(n["args"]) == 1)
-                    default_ok = (bool(pushes) and all(rx.is_var(x["args"][0], name) or rx.is_var(x["args"][0], rx.var_name(m["scrut"])) for x in pushes)) or rx.is_var(arm["body"], name)
-        if table:
-            best = (table, default_ok)
-    if best is None:
-        return False, "no character match found in %s" % key
-    table, default_ok = best
-    missing = {k: v for k, v in entry["map"].items() if table.get(k) != v}
-    if missing:
-        return False, "%s does not map %s (found %s)" % (key, missing, table)
-    if not default_ok:
-        return False, "%s: the catch-all arm does not pass the character through unchanged" % key
-    # the scrutinee iterates over the characters of the input parameter
-    loops = find_all(fn.body, lambda n: (n.get("k") == "for" and find_all(n["iter"], lambda x: x.get("k") == "mcall" and x["m"] == "chars")) or (n.get("k") == "mcall" and n["m"] in ("map", "flat_map", "for_each", "fold") and find_all(n["recv"], lambda x: x.get("k") == "mcall" and x["m"] == "chars")))
-    if not loops:
-        return False, "%s does not iterate over .chars() of its input" % key
-    return True, "%s maps %s and passes other characters through" % (key, entry["map"])
+def verified_sanitisers(facts):
+    """{fn key: (context name, set of escaped characters)} for every discovered character map whose map is exactly the one a
+    context requires; plus the list of character maps that match no context (reported, never accepted)."""
+    from .. import sanitise
+
+    ctx = json.load(open(SANI))["contexts"]
+    good, other = {}, {}
+    for key, info in sanitise.discover(facts).items():
+        hit = [n for n, m in ctx.items() if m == info["map"]]
+        if hit:
+            good[key] = (hit[0], set(info["map"]), info["detail"])
+        else:
+            other[key] = info["map"]
+    return good, other, ctx
 
 
 # ------------------------------------------------------------------ payload character sets (discharge by grammar)
@@ -148,7 +107,6 @@ def collect_sites(facts):
 
 def run(c, facts, tier):
     guile = json.load(open(GUILE))
-    sani = json.load(open(SANI))
     c.trusted = ["E1 extractor", "emission interpreter", "spec/guile_string.json (Guile's string read syntax and format directive character; agreement with the real reader is not checked)"]
     c.explanation = (
         "Three rules over every emission site of the code generator (all arms of the TargetScheme impls, every binding either manager can push, the skeleton): parenthesis balance outside string literals "
@@ -160,14 +118,17 @@ def run(c, facts, tier):
     c.not_decided = ["agreement of spec/guile_string.json with the real Guile reader"]
     legal = set(guile["legal_escapes"])
     # sanitisers
-    good_sani = {}
-    for ent in sani["sanitisers"]:
-        ok, det = verify_sanitiser(facts, ent)
-        if ok and ent.get("compose") and ent["compose"] not in good_sani:
-            ok, det = False, "%s composes %s, which is not a verified sanitiser" % (ent["fn"], ent["compose"])
-        c.ob("C04.sanitiser", ent["fn"], "escapes %s" % sorted(ent["map"]), ok, det)
-        if ok:
-            good_sani[ent["fn"]] = set(ent["map"].keys())
+    good_full, other_maps, ctxs = verified_sanitisers(facts)
+    good_sani = {k: v[1] for k, v in good_full.items()}
+    for cname, cmap in ctxs.items():
+        have = sorted(k for k, v in good_full.items() if v[0] == cname)
+        c.ob(
+            "C04.sanitiser",
+            "context " + cname,
+            "escapes %s" % sorted(cmap),
+            bool(have),
+            ("verified character map(s) %s: %s" % (have, good_full[have[0]][2])) if have else "no function of the crate evaluates to the character map %s (character maps found: %s; not evaluable: %s)" % (cmap, other_maps, getattr(facts, "_charmaps_rejected", {})),
+        )
     sites, sk = collect_sites(facts)
     c.analysed["emission_sites"] = len(sites)
     seen_taint = set()
